@@ -53,6 +53,8 @@ def skeleton(tag: str) -> Tuple[str, str, Dict[str, str]]:
         # a module that sorts after every consumer and only imports what it offers
         f'{pa}/w/__init__.py': f'"ID:{pa}.w"\nfrom .run import run\nfrom ..c import Kc as Frame\n',
         f'{pa}/w/run.py': f'"ID:{pa}.w.run"\ndef run(): "ID:run"\ndef other(): "ID:other"\n',
+        f'{pa}/w2/__init__.py': f'"ID:{pa}.w2"\nfrom .go import *\n',
+        f'{pa}/w2/go.py': f'"ID:{pa}.w2.go"\ndef go(): "ID:go"\ndef other2(): "ID:other2"\n',
         f'{pa}/zlate.py': f'"ID:{pa}.zlate"\nfrom .c import Kc as Late0\nfrom .w import run as late_run\n',
         # a third root whose name extends the first root's name; it re-exports (moves) a class that consumers import from where it is defined
         f'{pa}2/__init__.py': f'"ID:{pa}2"\nfrom .core import Eng\n__all__ = ["Eng"]\n',
@@ -92,6 +94,7 @@ def statements(pa: str, qa: str) -> List[str]:
         # aliases of members reached through a class whose linearisation differs from a depth-first walk of its bases
         f'from {pa}.c import Widget0\nZr0 = Widget0.render\nZo0 = Widget0.only_base', f'from {pa}.c import Page0 as Pg0\nZr1 = Pg0.render', f'import {pa}.c as cm0\nZr2 = cm0.Widget0.render',
         'Z15 = Dk', 'Z16 = Df\nclass Mine2(Dk):\n    "ID:Mine2"',
+        f'from {pa}.w2 import go', f'from {pa}.w2 import go as go0, other2', f'from {pa} import w2 as w3\nZ17 = w3.go', f'import {pa}.w2\nZ18 = {pa}.w2.go\nZ19 = {pa}.w2.other2', f'from {pa}.w2 import *',
         f'from {pa}.emp import *', f'from {pa}.c import Widget0, Page0 as P0', f'import {pa}.c as dm', f'from {pa}.c import Widget0\nclass Mine(Widget0):\n    "ID:Mine"',
     ]
 
@@ -110,6 +113,7 @@ def scopes(pa: str, qa: str) -> List[Tuple[str, str, str, str]]:
         ('cls-v', f'{qa}/v.py', f'{qa}.v', 'Scope'),
         # the enclosing class binds the name Dk too: class scopes do not nest, the nested class body sees the module's Dk
         ('nested-decoy-u', f'{pa}/s/u.py', f'{pa}.s.u', 'Outer.Scope'),
+        ('nested3-decoy-u', f'{pa}/s/u.py', f'{pa}.s.u', 'Outer.Mid.Scope'),
     ]
 
 
@@ -142,7 +146,7 @@ def run_case(tag: str, scope_idx: int, stmt_idx: Sequence[int], res: Dict[str, A
     sname, relfile, modname, scope_path = scopes(pa, qa)[scope_idx]
     sts = [statements(pa, qa)[i] for i in stmt_idx]
     generic = [statements('PA', 'QA')[i] for i in stmt_idx]
-    decoy = (f'from {pa}.c import Kc as Dk, fc as Df', f'from {pa}.b import Kb as Dk, fb as Df') if sname == 'nested-decoy-u' else None
+    decoy = (f'from {pa}.c import Kc as Dk, fc as Df', f'from {pa}.b import Kb as Dk, fb as Df') if sname in ('nested-decoy-u', 'nested3-decoy-u') else None
     files[relfile] = files[relfile] + place(sts, scope_path, decoy)
     case = {'kind': 'case', 'scope': scope_idx, 'stmts': list(stmt_idx)}
     with pd.scratch('c04') as d:
@@ -252,7 +256,7 @@ def run_case(tag: str, scope_idx: int, stmt_idx: Sequence[int], res: Dict[str, A
                 return
             bound = dict(vars(scope_py))
             for k, v in bound.items():
-                if k.startswith('__') or k in ('Scope', 'Outer'):
+                if k.startswith('__') or k in ('Scope', 'Outer', 'Mid'):
                     continue
                 if modname == pa and k in ('Rb', 'Ka', 'b', 's', 'c') and not scope_path and not any(k in st for st in sts):
                     continue      # pre-existing content of the package __init__
